@@ -105,9 +105,9 @@ Definition linspace (a b : Q) (n : nat) : list Q :=
   | S m => map (fun i => Qred (a + qZ i * ((b - a) / qZ m))) (seq 0 n)
   end.
 
-(** np.arange(start, stop, step): ceil((stop-start)/step) points start + i*step *)
-Definition arange (start stop step : Q) : list Q :=
-  map (fun i => Qred (start + qZ i * step)) (seq 0 (Z.to_nat (Qceiling ((stop - start) / step)))).
+(** np.linspace(a, b, n, endpoint=False): n points a + i*(b-a)/n *)
+Definition linspace_open (a b : Q) (n : nat) : list Q :=
+  map (fun i => Qred (a + qZ i * ((b - a) / qZ n))) (seq 0 n).
 
 (** np.unique: sorted, duplicates removed *)
 Fixpoint uinsert (x : Q) (l : list Q) : list Q :=
@@ -169,10 +169,9 @@ Definition newTable (s : st) (a b : Q) (n : nat) : st * res unit :=
 Definition extend (s : st) (newMin newMax : Q) (pLo pHi : nat) : st * res unit :=
   if negb (hasT s) then newTable s newMin newMax (pLo + pHi) else
   let lo := if Qlt_bool newMin (rmin s) && (0 <? pLo)%nat
-            then arange newMin (rmin s) (Qabs (rmin s - newMin) / qZ pLo) else [] in
+            then linspace_open newMin (rmin s) pLo else [] in
   let hi := if Qlt_bool (rmax s) newMax && (0 <? pHi)%nat
-            then let sp := Qabs (newMax - rmax s) / qZ pHi in
-                 arange (rmax s + sp) (newMax + sp) sp else [] in
+            then tl (linspace (rmax s) newMax (S pHi)) else [] in
   match interpolate s (lo ++ tab s ++ hi) with
   | (s', Ok _) => ((if adaptive s' then set_adapt s' true 0 [] else s'), Ok tt)
   | r => r
@@ -181,8 +180,10 @@ Definition extend (s : st) (newMin newMax : Q) (pLo pHi : nat) : st * res unit :
 Definition adaptiveUpdate (s : st) : st * res unit :=
   let emin := qmin (pend s) in
   let emax := qmax (pend s) in
-  let c := if hasT s then (cfg_n0 s / 5)%nat else (cfg_n0 s / 2)%nat in
-  extend (set_adapt s (adaptive s) 0 []) emin emax c c.
+  let s0 := set_adapt s (adaptive s) 0 [] in
+  if hasT s then extend s0 emin emax (cfg_n0 s / 5)%nat (cfg_n0 s / 5)%nat
+  else if Qeq_bool emin emax then (s0, Ok tt)       (* a single distinct point: wait *)
+  else extend s0 emin emax (cfg_n0 s / 2)%nat (cfg_n0 s / 2)%nat.
 
 Definition schedule (s : st) (pts : list Q) : st * res unit :=
   match usort (filter fin pts) with
